@@ -8,7 +8,7 @@ ALLOWED_AXIOMS = {"Classical_Prop.classic", "ClassicalDedekindReals.sig_not_dec"
                   "ClassicalDedekindReals.sig_forall_dec",
                   "FunctionalExtensionality.functional_extensionality_dep"}
 MANIFEST = {
-    "text": "Coq theorems over the broker model: read_entry hands out an entry only with can_read = Ok at that moment; initial snapshots and change notifications contain only readable entries and the stored state; for EVERY history no message ever put into a subscriber's stream names a signal outside the subscriber's scopes (history invariant by induction over all operations); an expired subscription receives nothing more and is removed by housekeeping. Tied to the code by generated histories with adversarial scope sets (partial names, '*' levels, actions that imply read) and tokens that expire mid-history (real clock), diffed operation by operation against the real AuthorizedAccess API; a permission oracle independent of the model judges every value in every implementation message. Second part: reads and subscriptions through the gRPC handlers (v1 Get with every view, v2 GetValue(s), sdv GetDatapoints; kuksa.val.v1 Subscribe, kuksa.val.v2 Subscribe / SubscribeById) by principals with partial and expiring scopes, rewritten into core operations for the same non-disclosure clauses; theorem c03_v1_subscribe_only_readable.",
+    "text": "Coq theorems over the broker model: read_entry hands out an entry only with can_read = Ok at that moment; initial snapshots and change notifications contain only readable entries and the stored state; for EVERY history no message ever put into a subscriber's stream names a signal outside the subscriber's scopes (history invariant by induction over all operations); an expired subscription receives nothing more and is removed by housekeeping. Tied to the code by generated histories with adversarial scope sets (partial names, '*' levels, actions that imply read) and tokens that expire mid-history (real clock), diffed operation by operation against the real AuthorizedAccess API; a permission oracle independent of the model judges every value in every implementation message. Second part: reads and subscriptions through the gRPC handlers (v1 Get with every view, v2 GetValue(s), sdv GetDatapoints; kuksa.val.v1 Subscribe, kuksa.val.v2 Subscribe / SubscribeById) by principals with partial and expiring scopes, rewritten into core operations for the same non-disclosure clauses; theorem c03_v1_subscribe_only_readable. Third part: query subscriptions (core API and sdv Subscribe) by principals with partial and expiring scopes; no response may carry, under the name or alias of a plain signal, the value of a signal its subscriber cannot read (C03-query).",
     "note": "Trusted: Coq kernel; the 4 standard-library axioms that enter through Flocq (used by validate's float comparisons) as printed by Print Assumptions; extraction + OCaml driver (vm_compute cross-check each run); harness/src/fam_hist.rs and hook H3 (verif_housekeeping_step); the Python monitors. Modelled, not verified: tokio broadcast (ring with capacity rounded up to a power of two, Lagged skipping) and RwLock, HashMap iteration order (outputs are sorted), the gRPC handlers on top of AuthorizedAccess (exercised by the handler-level checks), SystemTime (a timestamp is canonicalised to the operation during which it was taken; expiry is crossed in real time at a TICK).",
 }
 PROPS = set("C03".split(","))
